@@ -204,6 +204,38 @@ func addrFamily(run *ev.Run, n int) {
 	})
 }
 
+// addrPrefixFamily: the address version byte is configurable (address.Prefix;
+// the legacy wallet converter sets the Neo Legacy one). Encoding then decoding
+// is the identity under every prefix, and the encoding is the reference one.
+// The prefixes are visited one after another: the variable is package state.
+func addrPrefixFamily(run *ev.Run, n int) {
+	defer func() { address.Prefix = address.NEO3Prefix }()
+	for pi, pfx := range []byte{address.NEO2Prefix, 0x00, 0x6f, 0xff, 0x34, 0x36} {
+		address.Prefix = pfx
+		family(run, fmt.Sprintf("address-prefix-%02x", pfx), n, func(c *tc, i int) (string, bool) {
+			r := rng.New(sAddr + 7777*uint64(pi+1) + uint64(i))
+			b, cls := genHashBytes(r, 20)
+			c.in["scripthash_be"] = hx(b)
+			c.in["prefix"] = pfx
+			u, _ := util.Uint160DecodeBytesBE(b)
+			s := address.Uint160ToString(u)
+			if want := refCheckEnc(append([]byte{pfx}, b...)); s != want {
+				c.fail("address:encoding-differs-from-reference:non-default-prefix", s+" vs "+want)
+			}
+			back, err := address.StringToUint160(s)
+			if err != nil || back != u {
+				c.fail("address:roundtrip:non-default-prefix", fmt.Sprintf("prefix %#x: %s -> %s err=%v", pfx, s, back.StringBE(), err))
+			}
+			// an address of another version byte is not one of this configuration
+			if _, err := address.StringToUint160(refCheckEnc(append([]byte{pfx ^ 1}, b...))); err == nil {
+				c.fail("address:other-version-byte-accepted", fmt.Sprintf("prefix %#x", pfx))
+			}
+			run.Obs("address_inversions_under_non_default_prefix", 1)
+			return cls, true
+		})
+	}
+}
+
 func uintFamily(run *ev.Run, n int) {
 	family(run, "uint", n, func(c *tc, i int) (string, bool) {
 		r := rng.New(sUint + uint64(i))
